@@ -260,6 +260,16 @@ class Check:
         rc, out, dt = sh(cmd, cwd=VERIF, timeout=eng.get("timeout", 3000))
         rep = {"engine": name, "tier": tier, "seed": seed, "harness_s": round(dt, 2), "rc": rc}
         meta_p = os.path.join(odir, name + ".meta.json")
+        hang_p = os.path.join(odir, name + ".hang")
+        if rc == 4 and os.path.exists(hang_p):
+            # the real code stopped making progress: a concrete non-termination (or extreme slowness) witness
+            lines = open(hang_p).read()
+            rep["hang"] = True
+            self.violations.append({"kind": "implementation hangs (watchdog)", "engine": name,
+                                    "what": f"engine {name}: the implementation made no progress for the watchdog period while executing the last request of this replay (never loops forever / bounded time)",
+                                    "replay": lines, "signature": "hang:" + name})
+            self.oblige(f"engine {name} runs to completion", False, "watchdog: no progress; see replay")
+            return rep
         if rc != 0 or not os.path.exists(meta_p):
             rep["crashed"] = out[-800:]
             self.oblige(f"engine {name} runs to completion", False, f"rc={rc}: {out[-600:]}")
